@@ -44,7 +44,8 @@ REACH = [
 ]
 
 CORE = ["a", " ", "\t", "\n"]
-EXTRA = ["é", "<", "&", '"', " ", " ", "　", "\U0001f600", "b", "'", ">"]
+UNNORMALISED = ["e\u0301", "\u212b", "\u2126", "\u1100\u1161", "\u0958", "\u00e9\u0301", "A\u030a", "\ufb01", "\u1e9b\u0323"]
+EXTRA = ["e\u0301", "\u212b", "é", "<", "&", '"', " ", " ", "　", "\U0001f600", "b", "'", ">"]
 
 
 RUNS = [1, 2, 3, 8, 9, 10, 11, 12, 19, 20, 21, 22, 99, 100, 101, 102, 120, 999, 1000, 1001]
@@ -219,6 +220,15 @@ def run(ctx, res):
             if n <= 5 and (idx // ctx.nshards) % 4 == 0:
                 build_and_judge(res, "Paragraph", [s], "ctor", formatted=False)
     res.info["exhaustive"] = f"all strings over {{a,SPACE,TAB,LF}} up to length {maxlen}, every 2-way split"
+    # characters with a canonical (de)composition: the string given is the string kept, code point for code point
+    # (no Unicode normalisation: "e" + U+0301 is not U+00E9, ANGSTROM SIGN is not A WITH RING)
+    if ctx.shard == 0:
+        for tok in UNNORMALISED:
+            for kind in ("Paragraph", "Header", "Span"):
+                build_and_judge(res, kind, [tok], "ctor")
+                for route in ("append", "append_plain_text"):
+                    build_and_judge(res, kind, ["a" + tok, tok + " b"], route)
+                    build_and_judge(res, kind, [tok[:1], tok[1:] + "\t" + tok], route)
     rng = ctx.rng("random")
     for i in range(1200 if ctx.quick else 200000):
         n = rng.randint(1, 40)
